@@ -117,6 +117,14 @@ fn op_shift(payload: &str) -> String {
                 }
                 continue;
             }
+            // content crossing a canvas edge: tiny-skia piles the coverage of the off-canvas part of an edge into the
+            // border pixel.  The property excludes content entering / leaving the canvas: on native canvases the
+            // outermost pixel frame of either rendering is not compared.
+            if native
+                && (x == 0 || y == 0 || x == w as i32 - 1 || y == h as i32 - 1 || xb == 0 || yb == 0 || xb == w as i32 - 1 || yb == h as i32 - 1)
+            {
+                continue;
+            }
             let ib = ((yb as u32 * w + xb as u32) * 4) as usize;
             if da[ia + 3] != 0 || db[ib + 3] != 0 {
                 nonblank += 1;
